@@ -97,7 +97,9 @@ class InMemMap(BaseMap):
             self.lonlat2xy = pyproj_notfound
             self.xy2lonlat = pyproj_notfound
 
-        self.linked_edges = linked_edges  # type: Optional[Dict[EdgeType, Set[Tuple[EdgeType]]]]
+        # Linked edges are kept as lists (in insertion order): iterating over a set of labels would make the order
+        # of the neighbouring edges, and thus the matching, depend on the interpreter's hash seed.
+        self.linked_edges = linked_edges  # type: Optional[Dict[EdgeType, List[EdgeType]]]
         self.vertex_label_map = None
 
     def vertex_label_to_int(self, label, create=False):
@@ -575,10 +577,9 @@ class InMemMap(BaseMap):
                 if self.lines_parallel(loc_a, loc_b, loc_c, loc_d, d=dist):
                     # print(f"Parallel: ({key_a},{key_b}) - ({key_c},{key_d})")
                     key = (key_a, key_b)
-                    if key in self.linked_edges:
-                        self.linked_edges[key].add((key_c, key_d))
-                    else:
-                        self.linked_edges[key] = {(key_c, key_d)}
+                    linked = self.linked_edges.setdefault(key, [])
+                    if (key_c, key_d) not in linked:
+                        linked.append((key_c, key_d))
         logger.debug(f"Linked {len(self.linked_edges)} edges")
 
     def print_stats(self):
